@@ -2626,7 +2626,10 @@ fn main() {
         ];
         let eps_log = vec![all.clone(), vec![Op::Del(u(0)), Op::Put(u(5), td("v2")), Op::Ckpt, Op::Del(u(9))], vec![Op::Put(u(0), td("back"))]];
         for (mode, bloom) in [(SyncMode::Immediate, false), (SyncMode::Manual, false), (SyncMode::Batched { max_entries: 3 }, false), (SyncMode::Immediate, true)] {
-            for eps in [&eps_ckpt, &eps_log] {
+            for (j, eps) in [&eps_ckpt, &eps_log].into_iter().enumerate() {
+                if j == 1 && !th && (bloom || matches!(mode, SyncMode::Batched { .. })) {
+                    continue;
+                }
                 let cc = ChainCfg { stream: "chain_unicode_directed", mode, random_cuts: 3, resume_full: mode == SyncMode::Immediate, bloom, ..BASE };
                 run_chain(&mut ctx, &mut r, &cc, eps);
             }
@@ -3015,7 +3018,7 @@ fn main() {
     //     (the keys live in the snapshot when the crash comes), all sync modes, Bloom filter now and then
     {
         let mut r = rng.fork("chain_unicode");
-        let n = if th { 60 } else { 16 };
+        let n = if th { 60 } else { 12 };
         for i in 0..n {
             let mode = match i % 4 { 0 | 1 => SyncMode::Immediate, 2 => SyncMode::Manual, _ => SyncMode::Batched { max_entries: 2 + (i % 3) } };
             let cc = ChainCfg { stream: "chain_unicode", mode, random_cuts: if th { 12 } else { 3 }, bloom: i % 5 == 4, ..BASE };
